@@ -90,9 +90,10 @@ func (m *MethodEvaluator) isNotArgT(
 		return true
 	}
 
-	// `x.to_s; y = 1` and `do |x| x.to_s end`: the arguments of a call without
-	// parentheses stop where its statement stops
-	if !m.isParentheses && (t.IsTargetIdentifier(";") || t.IsEndIdentifier()) {
+	// `x.to_s; y = 1`, `do |x| x.to_s end` and `x.to_s rescue nil`: the arguments
+	// of a call without parentheses stop where its statement stops
+	if !m.isParentheses &&
+		(t.IsTargetIdentifier(";") || t.IsEndIdentifier() || t.IsTargetIdentifier("rescue")) {
 		m.parser.Unget()
 		return true
 	}
